@@ -45,13 +45,13 @@ inductive Res (α : Type)
 def EM (α : Type) := St → Res α
 
 namespace EM
-def pure {α : Type} (a : α) : EM α := fun s => .ok a s
-def bind {α β : Type} (m : EM α) (f : α → EM β) : EM β := fun s =>
+@[always_inline, inline] def pure {α : Type} (a : α) : EM α := fun s => .ok a s
+@[always_inline, inline] def bind {α β : Type} (m : EM α) (f : α → EM β) : EM β := fun s =>
   match m s with
   | .ok a s' => f a s'
   | .err e s' => .err e s'
   | .oof => .oof
-instance : Monad EM where
+@[always_inline] instance : Monad EM where
   pure := EM.pure
   bind := EM.bind
 end EM
